@@ -132,6 +132,12 @@ def plan (args impl : List String) : Option (String × String) := do
         else if implDurs ≠ kept.map (fun (_, d, _) => some d) then "FAIL kept-stages-are-not-exactly-the-unfinished-ones-in-order"
         else if total.toInt? ≠ some durs.sum then "FAIL total-duration-is-not-the-sum-of-all-stage-durations"
         else if implParams ≠ wantParams then "FAIL stage-parameters-not-inherited-from-default"
+        -- a users stage has the users its own `concurrency` says, else the default section's, else the limits'
+        else if (implStages.zip kept).any (fun (x, (s, _, _)) =>
+            (inh s.mode cfg.default_.mode) = some b_users ∧
+            ((x.splitOn "/").getD 2 "").toInt? ≠
+              (match inh s.concurrency cfg.default_.concurrency with | some c => some c | none => cfg.limits.concurrency)) then
+          "FAIL users-of-a-stage-not-taken-from-stage-then-default-then-limits"
         else if some sc ≠ cfg.scenario.map strHex then "FAIL scenario"
         else if maxdur.toInt? ≠ cfg.limits.maxDuration ∨ conc.toInt? ≠ cfg.limits.concurrency
             ∨ maxit.toNat? ≠ cfg.limits.maxIterations ∨ some (decide (ign = "1")) ≠ cfg.limits.ignoreDropped
